@@ -53,23 +53,23 @@ Proof.
       * right. apply IH. split; [lia|]. replace (i - a) with (S (i - S a)) in H2 by lia. exact H2.
 Qed.
 
-Lemma parse_file_sound : forall content start f,
-  In f (parse_file content start) ->
+Lemma parse_file_sound : forall fx content start f,
+  In f (parse_file fx content start) ->
   exists i, f_number f = i + 1 + start /\ nth_error (split_nl content) i = Some (f_text f) /\
-            blank (f_text f) = false /\ f_parsed f = parse_line (f_text f).
+            blank (f_text f) = false /\ f_parsed f = parse_line fx (f_text f).
 Proof.
-  intros content start f H. unfold parse_file, file_lines, numbered in H.
+  intros fx content start f H. unfold parse_file, file_lines, numbered in H.
   rewrite map_map in H. apply in_map_iff in H. destruct H as ([i l] & <- & H).
   apply filter_In in H. destruct H as [H Hb]. apply in_combine_seq in H. destruct H as [_ H].
   rewrite Nat.sub_0_r in H. simpl in *. exists i. repeat split; auto.
   apply negb_true_iff in Hb. exact Hb.
 Qed.
 
-Lemma parse_file_complete : forall content start i l,
+Lemma parse_file_complete : forall fx content start i l,
   nth_error (split_nl content) i = Some l -> blank l = false ->
-  In (mkfline (i + 1 + start) l (parse_line l)) (parse_file content start).
+  In (mkfline (i + 1 + start) l (parse_line fx l)) (parse_file fx content start).
 Proof.
-  intros content start i l H Hb. unfold parse_file, file_lines, numbered. rewrite map_map.
+  intros fx content start i l H Hb. unfold parse_file, file_lines, numbered. rewrite map_map.
   apply in_map_iff. exists (i, l). split; [reflexivity|]. apply filter_In. split.
   - apply in_combine_seq. split; [lia|]. rewrite Nat.sub_0_r. exact H.
   - simpl. rewrite Hb. reflexivity.
@@ -85,8 +85,8 @@ Proof.
   apply filter_In in Hn. destruct Hn as [Hn _]. apply in_combine_seq in Hn. simpl. lia.
 Qed.
 
-Lemma parse_file_increasing : forall content start,
-  StronglySorted lt (map f_number (parse_file content start)).
+Lemma parse_file_increasing : forall fx content start,
+  StronglySorted lt (map f_number (parse_file fx content start)).
 Proof.
   intros. unfold parse_file, file_lines, numbered. rewrite !map_map. simpl.
   pose proof (sorted_filter_seq (split_nl content) 0 (fun p => negb (blank (snd p))) (1 + start)) as H.
@@ -100,16 +100,16 @@ Proof.
   destruct (negb (blank x)); simpl; rewrite IH; reflexivity.
 Qed.
 
-Lemma parse_file_text : forall content start,
-  map f_text (parse_file content start) = filter (fun l => negb (blank l)) (split_nl content).
+Lemma parse_file_text : forall fx content start,
+  map f_text (parse_file fx content start) = filter (fun l => negb (blank l)) (split_nl content).
 Proof.
   intros. unfold parse_file, file_lines, numbered. rewrite !map_map. simpl.
   rewrite <- (filter_combine_snd (split_nl content) 0). reflexivity.
 Qed.
 
-Lemma parse_file_count : forall content start,
-  length (parse_file content start) = length (filter (fun l => negb (blank l)) (split_nl content)).
-Proof. intros. rewrite <- (parse_file_text content start). rewrite map_length. reflexivity. Qed.
+Lemma parse_file_count : forall fx content start,
+  length (parse_file fx content start) = length (filter (fun l => negb (blank l)) (split_nl content)).
+Proof. intros. rewrite <- (parse_file_text fx content start). rewrite map_length. reflexivity. Qed.
 
 (* 0-based positions of the non-blank lines *)
 Definition nonblank_positions (ls : list string) : list nat :=
@@ -132,8 +132,8 @@ Proof.
   destruct (negb (blank x)); simpl; rewrite IH, !map_map; [f_equal|]; apply map_ext; intros; lia.
 Qed.
 
-Lemma parse_file_lines : forall content start,
-  map f_number (parse_file content start) =
+Lemma parse_file_lines : forall fx content start,
+  map f_number (parse_file fx content start) =
   map (fun i => i + 1 + start) (nonblank_positions (split_nl content)).
 Proof.
   intros. unfold parse_file, file_lines, numbered. rewrite !map_map. simpl.
